@@ -473,6 +473,12 @@ func checkPicks(c *harness.Case, holder any, picks []pick) caseStats {
 		refinedClass = ""
 		culprit, where, class, orderOnly := localise(holder, p, multiset)
 		sig := "diff:" + culprit + ":" + class
+		if !harness.Known(sig) && strings.Contains(class, "(min-int64)") {
+			// the annotation only matters for the arithmetic finding above
+			if alt := "diff:" + culprit + ":" + strings.ReplaceAll(class, "(min-int64)", ""); harness.Known(alt) {
+				sig = alt
+			}
+		}
 		if !harness.Known(sig) && refinedClass != "" && refinedClass != class {
 			// name the finding by the kinds of inputs that actually disagree
 			class = refinedClass
